@@ -91,6 +91,12 @@ def _case(draw):
     if shape in ("two", "three") and draw(st.sampled_from([True, False, False])):
         fam["sparse"] = {"k": 5, "loc": {"Weight": draw(st.sampled_from([250, 750]))}, "names": [draw(st.sampled_from(simple or lat))]}
     case = {"fam": fam, "module": draw(st.sampled_from(["ufoLib2", "defcon"])), "flavour": draw(st.sampled_from(["ttf", "ttf", "cff2"])), "varfea": draw(st.booleans()), "shape": shape}
+    if case["varfea"] and draw(st.sampled_from([True, False, False])):
+        # variable features only (the merged path needs the class pair in every master): the group-group pair is absent from one non-default master
+        i = str(draw(st.integers(1, len(masters) - 1)))
+        dk = fam.setdefault("drop_kerning", {})
+        dk[i] = sorted(set(dk.get(i, [])) | {0})
+        case["group_pair_dropped"] = True
     return case
 
 
@@ -274,6 +280,8 @@ def run_case(case, ctx):
         ctx.label("sparse-master")
     if any(len(v) == len(fam["base"]["kerning"]) for v in (fam.get("drop_kerning") or {}).values()):
         ctx.label("master-without-any-kerning")
+    if case.get("group_pair_dropped"):
+        ctx.label("group-pair-missing-in-a-non-default-master")
     if fam.get("drop_kerning"):
         ctx.label("kerning-pair-missing-in-a-master")
     if fam["tweaks"]:
@@ -301,13 +309,14 @@ def _despike(poly):
         n = len(pts)
         for i in range(n):
             a, b, c = pts[i - 1], pts[i], pts[(i + 1) % n]
-            if b == a or b == c:
+            if max(abs(b[0] - a[0]), abs(b[1] - a[1])) < 1e-3 or max(abs(b[0] - c[0]), abs(b[1] - c[1])) < 1e-3:
                 del pts[i]
                 changed = True
                 break
             cross = (b[0] - a[0]) * (c[1] - b[1]) - (b[1] - a[1]) * (c[0] - b[0])
             dot = (b[0] - a[0]) * (c[0] - b[0]) + (b[1] - a[1]) * (c[1] - b[1])
-            if abs(cross) < 1e-9 and dot < 0:
+            # reversal along (almost) the same line: the instance's coordinates are interpolated floats, so "the same line" holds up to ~1e-4 units
+            if dot < 0 and abs(cross) <= 0.02 * math.hypot(b[0] - a[0], b[1] - a[1]):
                 del pts[i]
                 changed = True
                 break
